@@ -231,6 +231,12 @@ def check(lib, m, fields=None, limit=8):
     i = _first_bad(ismesh & ((did < -1) | (did >= m.nmesh)))
     if i is not None:
       add('geom_dataid', i, did[i], 'mesh id not in [-1, nmesh=%d)' % m.nmesh, 'branch:mesh')
+    # primitive geoms: "id of geom's mesh/hfield; -1: none" - a primitive fitted to a mesh keeps the mesh id, and the
+    # collision code follows a non-negative id for every geom type, so the id must be a mesh id or -1
+    prim = ~ismesh & (t != E.mjGEOM_HFIELD)
+    i = _first_bad(prim & ((did < -1) | (did >= m.nmesh)))
+    if i is not None:
+      add('geom_dataid', i, did[i], 'data id of a primitive geom not in [-1, nmesh=%d)' % m.nmesh, 'branch:primitive')
     i = _first_bad((t == E.mjGEOM_HFIELD) & ((did < -1) | (did >= m.nhfield)))
     if i is not None:
       add('geom_dataid', i, did[i], 'hfield id not in [-1, nhfield=%d)' % m.nhfield, 'branch:hfield')
